@@ -83,7 +83,9 @@ def err_is(st, e, target):
 
 @model("errors.Is", "golang.org/x/xerrors.Is")
 def _errors_is(eng, fr, st, name, args, rtypes, ins):
-    return [(st, err_is(st, args[0], args[1]))]
+    r = err_is(st, args[0], args[1])
+    st.log("errors.Is", args, [r], ins.get("pos"), "read")      # visible to contracts as ret(errors.Is, 0); a read, not an effect
+    return [(st, r)]
 
 
 # ---------------------------------------------------------------- sync
@@ -183,7 +185,30 @@ def _ctx_with(eng, fr, st, name, args, rtypes, ins):
     cancel = FuncV(ref=z3.Const(fresh_name("cancel"), Ref), t=rtypes[1])
     st.assume(cancel.ref != NIL)
     st.ghost.setdefault("cancel_funcs", {})[str(cancel.ref)] = ctx
+    # lineage: a derived context ends when its parent does; it is detached from every caller exactly if its parent is
+    det = uf("ctx.detached", [Ref], z3.BoolSort())
+    if args and isinstance(args[0], IfaceV):
+        st.assume(det(ctx.ref) == det(args[0].ref))
     return [(st, TupleV([ctx, cancel]))]
+
+
+@model("context.Background", "context.TODO")
+def _ctx_background(eng, fr, st, name, args, rtypes, ins):
+    """a root context: never cancelled, no deadline, derived from nobody's context (`detached(c)` in contracts)"""
+    ctx = IfaceV(z3.Const(fresh_name("ctxroot"), Ref))
+    st.assume(ctx.ref != NIL)
+    st.assume(uf("ctx.detached", [Ref], z3.BoolSort())(ctx.ref))
+    return [(st, ctx)]
+
+
+@model("context.WithValue")
+def _ctx_with_value(eng, fr, st, name, args, rtypes, ins):
+    ctx = IfaceV(z3.Const(fresh_name("ctx"), Ref))
+    st.assume(ctx.ref != NIL)
+    det = uf("ctx.detached", [Ref], z3.BoolSort())
+    if args and isinstance(args[0], IfaceV):
+        st.assume(det(ctx.ref) == det(args[0].ref))
+    return [(st, ctx)]
 
 
 @model("(context.Context).Done")
@@ -202,6 +227,7 @@ def _ctx_err(eng, fr, st, name, args, rtypes, ins):
 def _time_after(eng, fr, st, name, args, rtypes, ins):
     ch = ChanV(rtypes[0], z3.Const(fresh_name("timer"), Ref), False, ready=True)
     eng.promise(st, ch)      # a timer channel delivers without further input
+    st.log("time.After", args, [ch], ins.get("pos"), "read")    # visible to contracts (which timer, how long); a read, not an effect
     return [(st, ch)]
 
 
